@@ -550,9 +550,12 @@ class Parser:
         math_repls = [(s.math_repl_inline, s.math_repl_inline.copy(),
                         s.math_repl_display, s.math_repl_display.copy())
                                 for s in settings]
+        lang_stack = self.parms.parser_lang_stack.copy()
         toks = self.expand_sequence(scanner.Buffer(toks.copy()))
         # NB: expand_arguments() may be about to append to this very list
         del self.extracted[n_extracted:]
+        self.parms.parser_lang_stack[:] = lang_stack
+        self.parms.lang_context = lang_stack[-1][0]
         for inline, inline_sav, display, display_sav in math_repls:
             inline[:] = inline_sav
             display[:] = display_sav
